@@ -252,6 +252,24 @@ let do_opt rest =
   let (_, stable) = x_fs_table g in
   print_endline (Printf.sprintf "opt %s :: stable=%d,optok=%d %s" gid (if stable then 1 else 0) (if x_opt_ok g then 1 else 0) (sexp_of_grammar (x_optimize g)))
 
+
+(* emit <gid> <ast> <inline> <undef bits> : the label/block skeleton of every rule function *)
+let do_emit rest =
+  match String.split_on_char ' ' rest with
+  | gid :: ast :: inl :: tl ->
+    let (g, _) = Hashtbl.find grammars gid in
+    let bits = match tl with [b] -> b | _ -> "" in
+    let undef = List.init (String.length bits) (fun i -> bits.[i] = '1') in
+    let ni n = string_of_int (int_of_nat n) in
+    let ts = function
+      | TSt -> "s" | TLbl n -> "L" ^ ni n | TJmp n -> "J" ^ ni n | TCJmp n -> "C" ^ ni n
+      | TSave n -> "S" ^ ni n | TRestore n -> "R" ^ ni n | TSaveP n -> "P" ^ ni n | TUseP n -> "U" ^ ni n
+      | TBrk -> "b" | TOpen -> "{" | TClose -> "}" | TSw -> "sw" | TCase -> "case" | TDflt -> "dflt" | TEndSw -> "end" in
+    let slots = x_emit_all g (ast = "1") (inl = "1") undef in
+    print_endline (Printf.sprintf "emit %s/%s%s :: %s" gid ast inl
+                     (String.concat ";" (List.map (function None -> "nil" | Some l -> String.concat "," (List.map ts l)) slots)))
+  | _ -> failwith "emit: args"
+
 (* diag <id> (rg (def name expr) ...) *)
 let do_diag rest =
   let i = String.index rest ' ' in
@@ -302,6 +320,7 @@ let () =
            | "cli" -> do_cli rest
            | "diag" -> do_diag rest
            | "opt" -> do_opt rest
+           | "emit" -> do_emit rest
            | "elab" -> do_elab rest
            | "ruletype" -> do_ruletype rest
            | _ -> print_endline ("ERR unknown command " ^ cmd))
